@@ -97,8 +97,23 @@ def random_uris(rng, n):
         if rng.random() < 0.6: out.append(enc(mutate(rng, s)))
     return out
 
+def ip4_suite():
+    """dotted hosts around every case split of the dec-octet rule (which lives in UriIp4.c, not in the control automaton of the
+    parser): every value 0..309 plus out-of-range and leading-zero forms, in each of the four positions, as a bare host, behind
+    user info, before a port, before a path, and as the tail of an IPv6 literal; always with the octet at the very END of the
+    text too (the scanner must not look past it)"""
+    octs = [str(v) for v in range(0, 310)] + ["999", "1000", "00", "01", "001", "010", "0255", ""]
+    out = []
+    for o in octs:
+        for pos in range(4):
+            q = ["10", "0", "255", "7"]; q[pos] = o; h = ".".join(q)
+            out.append("//" + h)
+            if pos == 3 or int(o or 0) % 7 == 0:
+                out += ["s://u@" + h, "//" + h + ":8", "//" + h + "/p", "//u:1@" + h + ":", "//[::" + h + "]", "//[1:2:3:4:5:6:" + h + "]"]
+    return sorted(set(enc([ord(c) for c in x]) for x in out))
+
 def repo_corpus():
-    """string literals of the repository's tests that look like URI material"""
+    """string literals of the repository's tests that look like URI material (plus the dotted-host suite)"""
     out = set()
     tdir = os.path.join(lib.REPO, "test")
     if not os.path.isdir(tdir): return []
@@ -110,7 +125,7 @@ def repo_corpus():
             lit = m.group(1)
             if "\\" in lit: continue
             out.add(enc([ord(c) for c in lit if ord(c) < 256]))
-    return sorted(out)[:3000]
+    return sorted(out)[:3000] + ip4_suite()
 
 def widen(rng, f):
     """a wide-only variant: one character replaced by a code point >= 128 (sometimes > 255)"""
